@@ -298,6 +298,77 @@ theorem readLines_new_indent {σ : Type} (C : Creator σ) (rs : RState σ) (n : 
       rw [this]
       simp
 
+/-- the general form: the old creator's `finish` succeeds (leaving `stF`), a new creator is made,
+then the run of calls -/
+theorem readLines_new_indent' {σ : Type} (C : Creator σ) (rs : RState σ) (n : Nat)
+    (p : Str × Str) (ps : List (Str × Str)) (hcr : rs.hasCreator = true) (hind : rs.indent ≠ some n)
+    (stF : σ) (hfin : C.finish rs.st = (stF, none))
+    (hok : ∀ q ∈ p :: ps, KwOk q.1 ∧ clean q.2 = true) (st' : σ)
+    (hcall : callAll C (C.new stF) (p :: ps) = (st', none)) :
+    readLines C rs (linesAt n (p :: ps)) =
+      ({ hasCreator := true, indent := some n, modified := true, st := st' }, none) := by
+  have hp := hok p (by simp)
+  simp only [linesAt, List.map_cons, readLines, cmdLine]
+  rw [parseLine_written n p.1 p.2 hp.1 hp.2]
+  simp only [callAll] at hcall
+  cases hc : C.call (C.new stF) (asciiLower p.1) p.2 with
+  | mk st1 o =>
+    rw [hc] at hcall
+    cases o with
+    | some e => simp at hcall
+    | none =>
+      simp only [] at hcall
+      simp only [readParsed, reindent, hind, if_false, hcr, if_true, hfin, hc]
+      have := readLines_same_indent C { hasCreator := true, indent := some n, modified := true, st := st1 } n ps rfl
+        (fun q hq => hok q (by simp [hq])) st' hcall
+      simp only [linesAt, cmdLine] at this
+      rw [this]
+      simp
+
+/-- a header line when no creator exists yet (start of the file) -/
+theorem readLines_first_header {σ : Type} (C : Creator σ) (st : σ) (kw v : Str) (ls : List Str)
+    (hk : KwOk kw) (hv : clean v = true) (st' : σ)
+    (hcall : C.call (C.new st) (asciiLower kw) v = (st', none)) :
+    readLines C { st := st } (sp kw v :: ls) =
+      readLines C { hasCreator := true, indent := some 0, modified := true, st := st' } ls := by
+  have hp := parseLine_written 0 kw v hk hv
+  simp only [List.replicate_zero, List.nil_append] at hp
+  simp [readLines, hp, readParsed, reindent, hcall]
+
+/-- a header line after a record body: the old creator's `finish` runs first -/
+theorem readLines_next_header {σ : Type} (C : Creator σ) (rs : RState σ) (kw v : Str) (ls : List Str)
+    (hcr : rs.hasCreator = true) (hind : rs.indent ≠ some 0)
+    (hk : KwOk kw) (hv : clean v = true) (stF st' : σ) (hfin : C.finish rs.st = (stF, none))
+    (hcall : C.call (C.new stF) (asciiLower kw) v = (st', none)) :
+    readLines C rs (sp kw v :: ls) =
+      readLines C { hasCreator := true, indent := some 0, modified := true, st := st' } ls := by
+  have hp := parseLine_written 0 kw v hk hv
+  simp only [List.replicate_zero, List.nil_append] at hp
+  simp [readLines, hp, readParsed, reindent, hcr, hind, hfin, hcall]
+
+/-! ### sorting -/
+
+theorem insertBy_perm {α : Type} (le : α → α → Bool) (x : α) (l : List α) : (insertBy le x l).Perm (x :: l) := by
+  induction l with
+  | nil => exact List.Perm.refl _
+  | cons y ys ih =>
+    simp only [insertBy]
+    split
+    · exact List.Perm.refl _
+    · exact (List.Perm.cons y ih).trans (List.Perm.swap x y ys)
+
+theorem sortBy_perm {α : Type} (le : α → α → Bool) (l : List α) : (sortBy le l).Perm l := by
+  induction l with
+  | nil => exact List.Perm.refl _
+  | cons x xs ih => exact (insertBy_perm le x _).trans (List.Perm.cons x ih)
+
+theorem sortBy_pairwise_ne {α β : Type} (le : α → α → Bool) (f : α → β) (l : List α)
+    (h : l.Pairwise (fun a b => f a ≠ f b)) : (sortBy le l).Pairwise (fun a b => f a ≠ f b) :=
+  ((sortBy_perm le l).pairwise_iff (fun {_ _} hab e => hab e.symm)).mpr h
+
+theorem mem_sortBy {α : Type} (le : α → α → Bool) (l : List α) (x : α) : x ∈ sortBy le l ↔ x ∈ l :=
+  (sortBy_perm le l).mem_iff
+
 /-! ## 3. users: what the commands of a written record do -/
 
 theorem pairwiseB_iff {α : Type} (r : α → α → Bool) (l : List α) :
@@ -965,5 +1036,889 @@ theorem loadUsers_dumpUsers (E : Env) (db : UsersDb) (h : storableUsers E (sorte
     have e : ({} : UsersDb) = ⟨[], 0⟩ := rfl
     rw [e, this]
     simp
+
+/-! ## 4. ignores.conf -/
+
+theorem splitWs_go_word (w rest acc : Str) (hw : ∀ c ∈ w, isSpace c = false) :
+    splitWs.go (w ++ rest) acc = splitWs.go rest (w.reverse ++ acc) := by
+  induction w generalizing acc with
+  | nil => rfl
+  | cons c cs ih =>
+    have hc : isSpace c = false := hw c (by simp)
+    simp only [List.cons_append, splitWs.go, hc, Bool.false_eq_true, if_false]
+    rw [ih _ (fun x hx => hw x (by simp [hx]))]
+    simp
+
+theorem word_elim {v : Str} (h : word v = true) : v ≠ [] ∧ ∀ c ∈ v, isSpace c = false := by
+  simp only [word, Bool.and_eq_true, Bool.not_eq_true', List.isEmpty_eq_false_iff, List.all_eq_true] at h
+  exact ⟨h.1, fun c hc => by simpa using h.2 c hc⟩
+
+theorem splitWs_two (a b : Str) (ha : word a = true) (hb : word b = true) :
+    splitWs (a ++ ' ' :: b) = [a, b] := by
+  obtain ⟨hane, haw⟩ := word_elim ha
+  obtain ⟨hbne, hbw⟩ := word_elim hb
+  unfold splitWs
+  rw [splitWs_go_word a _ [] haw]
+  have h1 : (a.reverse ++ ([] : Str)).isEmpty = false := by simpa using hane
+  simp only [splitWs.go, isSpace_space, if_true, h1, Bool.false_eq_true, if_false]
+  have := splitWs_go_word b [] [] hbw
+  simp only [List.append_nil] at this
+  rw [this]
+  have h2 : b.reverse.isEmpty = false := by simpa using hbne
+  simp [splitWs.go, h2]
+
+theorem word_natDec (n : Nat) : word (natDec n) = true := by
+  obtain ⟨hne, hd⟩ := natDec_digits n
+  simp only [word, Bool.and_eq_true, Bool.not_eq_true', List.isEmpty_eq_false_iff, List.all_eq_true]
+  exact ⟨hne, fun c hc => by simp [(digit_props c (hd c hc)).1]⟩
+
+theorem parseFloatNat_natDec (n : Nat) (h : n < 2 ^ 53) : parseFloatNat (natDec n) = .ok n := by
+  obtain ⟨hne, hd⟩ := natDec_digits n
+  have hs : numStrip (natDec n) = natDec n := by
+    unfold numStrip rstripP lstripP
+    rw [dropWhile_all_false _ _ (fun c hc => (digit_props c (hd c hc)).2.1)]
+    rw [dropWhile_all_false _ _ (fun c hc => (digit_props c (hd c (by simpa using hc))).2.1)]
+    simp
+  have ha : allDigits (natDec n) = true := by
+    simp only [allDigits, Bool.and_eq_true, Bool.not_eq_true', List.all_eq_true]
+    exact ⟨by simpa using hne, hd⟩
+  have e : natDec n = Nat.toDigits 10 n := rfl
+  simp only [parseFloatNat, hs, ha, if_true]
+  rw [e, Nat.ofDigitChars_ten_toDigits]
+  simp [roundToDouble, h]
+
+theorem word_noBreak {v : Str} (h : word v = true) : ∀ c ∈ v, isBreak c = false := by
+  intro c hc
+  have := (word_elim h).2 c hc
+  cases hb : isBreak c with
+  | false => rfl
+  | true =>
+    simp only [isBreak, Bool.or_eq_true, decide_eq_true_eq] at hb
+    rcases hb with rfl | rfl <;> revert this <;> decide
+
+theorem ignoreLine_written (db : IgnoresDb) (p : Str × Nat) (hp : storableIgnore p = true)
+    (hnew : ∀ q ∈ db, q.1 ≠ p.1) : ignoreLine db (sp p.1 (natDec p.2)) = db ++ [p] := by
+  simp only [storableIgnore, Bool.and_eq_true, bne_iff_ne, ne_eq, decide_eq_true_eq] at hp
+  obtain ⟨⟨⟨hw, hh⟩, hhash⟩, hexp⟩ := hp
+  obtain ⟨hne, hnsp⟩ := word_elim hw
+  obtain ⟨c, cs, hc⟩ : ∃ c cs, p.1 = c :: cs := by
+    cases h : p.1 with
+    | nil => exact absurd h hne
+    | cons c cs => exact ⟨c, cs, rfl⟩
+  have hhead : (sp p.1 (natDec p.2)).head? ≠ some '#' := by
+    rw [hc] at hhash ⊢; simpa [sp] using hhash
+  have hblank : (strip (sp p.1 (natDec p.2))).isEmpty = false :=
+    strip_ne_nil _ c (by simp [sp, hc]) (hnsp c (by simp [hc]))
+  unfold ignoreLine
+  simp only [hhead, if_false, hblank, Bool.false_eq_true]
+  rw [show sp p.1 (natDec p.2) = p.1 ++ ' ' :: natDec p.2 from rfl, splitWs_two _ _ hw (word_natDec _)]
+  simp only [parseFloatNat_natDec _ hexp, hh, if_true]
+  rw [dictSet_new _ _ _ hnew]
+
+theorem foldl_ignoreLine (es acc : IgnoresDb) (hok : ∀ p ∈ es, storableIgnore p = true)
+    (hpw : (acc ++ es).Pairwise (fun a b => a.1 ≠ b.1)) :
+    (es.map (fun p => sp p.1 (natDec p.2))).foldl ignoreLine acc = acc ++ es := by
+  induction es generalizing acc with
+  | nil => simp
+  | cons p ps ih =>
+    have hnew : ∀ q ∈ acc, q.1 ≠ p.1 := fun q hq => (List.pairwise_append.mp hpw).2.2 q hq p (by simp)
+    simp only [List.map_cons, List.foldl_cons]
+    rw [ignoreLine_written acc p (hok p (by simp)) hnew, ih (acc ++ [p]) (fun q hq => hok q (by simp [hq]))
+      (by simpa using hpw)]
+    simp
+
+/-- ignores.conf round trip: exactly the unexpired entries come back -/
+theorem loadIgnores_dumpIgnores (E : Env) (db : IgnoresDb) (h : storableIgnores E.now db = true) :
+    loadIgnores (dumpIgnores E db) = db.filter (unexpired E.now) := by
+  simp only [storableIgnores, Bool.and_eq_true, pairwiseB_iff, List.all_eq_true] at h
+  obtain ⟨hpw, hall⟩ := h
+  have hpw' : (db.filter (unexpired E.now)).Pairwise (fun a b => a.1 ≠ b.1) :=
+    (hpw.imp (fun hab => by simpa using hab)).sublist List.filter_sublist
+  unfold loadIgnores dumpIgnores
+  have hf : (db.filter (fun p => decide (E.now < p.2) || decide (p.2 = 0))) = db.filter (unexpired E.now) := rfl
+  rw [hf, fileLines_unlines]
+  · have := foldl_ignoreLine (db.filter (unexpired E.now)) [] hall (by simpa using hpw')
+    simpa using this
+  · intro l hl c hc
+    simp only [List.mem_map] at hl
+    obtain ⟨p, hp, rfl⟩ := hl
+    have hs := hall p hp
+    simp only [storableIgnore, Bool.and_eq_true] at hs
+    simp only [sp, List.mem_append, List.mem_cons] at hc
+    rcases hc with hc | rfl | hc
+    · exact word_noBreak hs.1.1.1 c hc
+    · decide
+    · exact word_noBreak (word_natDec _) c hc
+
+/-! ## 5. networks.conf -/
+
+/-- `Reader.read` from a given loop state on (any creator) -/
+def readRestG {σ : Type} (C : Creator σ) (rs : RState σ) (ls : List Str) : σ × Option Err :=
+  let r := readLines C rs ls
+  match r.2 with
+  | some e => (r.1.st, some e)
+  | none => if r.1.modified then C.finish r.1.st else (r.1.st, none)
+
+theorem readText_eq {σ : Type} (C : Creator σ) (st : σ) (text : Str) :
+    readText C st text = readRestG C { st := st } (fileLines text) := rfl
+
+theorem ircDictSet_new {β : Type} (k : Str) (v : β) (l : List (Str × β))
+    (h : ∀ p ∈ l, C03.toLower p.1 ≠ C03.toLower k) : ircDictSet k v l = l ++ [(k, v)] := by
+  unfold ircDictSet
+  have : l.any (fun p => decide (C03.toLower p.1 = C03.toLower k)) = false := by
+    simp only [List.any_eq_false, decide_eq_true_eq]
+    exact h
+  simp [this]
+
+theorem ircDictSet_last {β : Type} (k : Str) (v v0 : β) (l : List (Str × β))
+    (h : ∀ p ∈ l, C03.toLower p.1 ≠ C03.toLower k) : ircDictSet k v (l ++ [(k, v0)]) = l ++ [(k, v)] := by
+  unfold ircDictSet
+  have h1 : (l ++ [(k, v0)]).any (fun p => decide (C03.toLower p.1 = C03.toLower k)) = true := by simp
+  have h2 : l.map (fun p => if C03.toLower p.1 = C03.toLower k then (k, v) else p) = l := by
+    rw [List.map_congr_left (g := id)]
+    · simp
+    · intro p hp
+      simp [h p hp]
+  simp [h1, h2]
+
+abbrev emptyNet : Net := {}
+
+abbrev nst (name : Str) (net : Net) (db : NetworksDb) : NState := ⟨some name, net, db⟩
+
+theorem kwOk_network : KwOk kwNetwork := ⟨by decide, by decide⟩
+theorem kwOk_stsW : KwOk kwStsPolicyW := ⟨by decide, by decide⟩
+theorem kwOk_lastW : KwOk kwLastDiscW := ⟨by decide, by decide⟩
+
+theorem clean_words (a b : Str) (ha : word a = true) (hb : word b = true) : clean (sp a b) = true := by
+  obtain ⟨hane, haw⟩ := word_elim ha
+  obtain ⟨_, hbw⟩ := word_elim hb
+  obtain ⟨c, cs, rfl⟩ : ∃ c cs, a = c :: cs := by
+    cases a with
+    | nil => exact absurd rfl hane
+    | cons c cs => exact ⟨c, cs, rfl⟩
+  have hc := haw c (by simp)
+  simp only [sp, List.cons_append, clean, hc, Bool.not_false, Bool.true_and, noTabBreak, List.all_eq_true,
+    Bool.and_eq_true, bne_iff_ne, ne_eq]
+  intro x hx
+  have hx' : x ∈ c :: cs ∨ x = ' ' ∨ x ∈ b := by
+    simp only [List.mem_cons, List.mem_append] at hx ⊢
+    rcases hx with h | h | h | h
+    · exact Or.inl (Or.inl h)
+    · exact Or.inl (Or.inr h)
+    · exact Or.inr (Or.inl h)
+    · exact Or.inr (Or.inr h)
+  have key : ∀ y : Char, isSpace y = false → (¬y = '\t' ∧ ¬y = '\n') ∧ ¬y = '\r' := by
+    intro y hy
+    refine ⟨⟨?_, ?_⟩, ?_⟩ <;> (intro e; subst e; revert hy; decide)
+  rcases hx' with h | rfl | h
+  · exact key x (haw x h)
+  · decide
+  · exact key x (hbw x h)
+
+theorem netCall_network (st : NState) (v : Str) :
+    netCall st kwNetwork v = ({ st with nname := some v }, none) := by
+  simp [netCall]
+
+theorem netCall_sts (st : NState) (server pol : Str) (hs : word server = true) (hp : word pol = true) :
+    netCall st kwStsPolicy (sp server pol) =
+      ({ st with net := { st.net with sts := dictSet server pol st.net.sts } }, none) := by
+  have : splitWs (sp server pol) = [server, pol] := splitWs_two server pol hs hp
+  simp [netCall, kwStsPolicy, kwNetwork, this]
+
+theorem netCall_last (st : NState) (server : Str) (t : Nat) (hs : word server = true) :
+    netCall st kwLastDisc (sp server (natDec t)) =
+      ({ st with net := { st.net with last := dictSet server t st.net.last } }, none) := by
+  have : splitWs (sp server (natDec t)) = [server, natDec t] := splitWs_two server _ hs (word_natDec t)
+  simp [netCall, kwStsPolicy, kwNetwork, kwLastDisc, this, parseNat_natDec]
+
+theorem callAll_sts (E : Env) (nm : Str) (db : NetworksDb) (es pre : List (Str × Str)) (net : Net)
+    (hr : net.sts = pre) (hok : ∀ p ∈ es, word p.1 = true ∧ word p.2 = true)
+    (hpw : (pre ++ es).Pairwise (fun a b => a.1 ≠ b.1)) :
+    callAll (netCreator E) (nst nm net db) (es.map (fun p => (kwStsPolicyW, sp p.1 p.2))) =
+      (nst nm { net with sts := pre ++ es } db, none) := by
+  induction es generalizing pre net with
+  | nil => subst hr; simp [callAll]
+  | cons p ps ih =>
+    have hnew : ∀ q ∈ pre, q.1 ≠ p.1 := fun q hq => (List.pairwise_append.mp hpw).2.2 q hq p (by simp)
+    have hlow : asciiLower kwStsPolicyW = kwStsPolicy := by decide
+    rw [List.map_cons, callAll_cons_ok (netCreator E) _ (nst nm { net with sts := pre ++ [p] } db) _ _ (by
+      show netCall (nst nm net db) (asciiLower kwStsPolicyW) (sp p.1 p.2) = _
+      rw [hlow, netCall_sts _ _ _ (hok p (by simp)).1 (hok p (by simp)).2]
+      simp only [hr, dictSet_new _ _ _ hnew])]
+    have := ih (pre ++ [p]) { net with sts := pre ++ [p] } rfl (fun q hq => hok q (by simp [hq])) (by simpa using hpw)
+    rw [this]
+    simp
+
+theorem callAll_last (E : Env) (nm : Str) (db : NetworksDb) (es pre : List (Str × Nat)) (net : Net)
+    (hr : net.last = pre) (hok : ∀ p ∈ es, word p.1 = true)
+    (hpw : (pre ++ es).Pairwise (fun a b => a.1 ≠ b.1)) :
+    callAll (netCreator E) (nst nm net db) (es.map (expCmd kwLastDiscW)) =
+      (nst nm { net with last := pre ++ es } db, none) := by
+  induction es generalizing pre net with
+  | nil => subst hr; simp [callAll]
+  | cons p ps ih =>
+    have hnew : ∀ q ∈ pre, q.1 ≠ p.1 := fun q hq => (List.pairwise_append.mp hpw).2.2 q hq p (by simp)
+    have hlow : asciiLower kwLastDiscW = kwLastDisc := by decide
+    rw [List.map_cons, callAll_cons_ok (netCreator E) _ (nst nm { net with last := pre ++ [p] } db) _ _ (by
+      show netCall (nst nm net db) (asciiLower kwLastDiscW) (sp p.1 (natDec p.2)) = _
+      rw [hlow, netCall_last _ _ _ (hok p (by simp))]
+      simp only [hr, dictSet_new _ _ _ hnew])]
+    have := ih (pre ++ [p]) { net with last := pre ++ [p] } rfl (fun q hq => hok q (by simp [hq])) (by simpa using hpw)
+    rw [this]
+    simp
+
+structure NetOk (n : Net) : Prop where
+  stsDistinct : n.sts.Pairwise (fun a b => a.1 ≠ b.1)
+  stsWords : ∀ p ∈ n.sts, word p.1 = true ∧ word p.2 = true
+  lastDistinct : n.last.Pairwise (fun a b => a.1 ≠ b.1)
+  lastWords : ∀ p ∈ n.last, word p.1 = true
+  nonEmpty : n.sts ≠ [] ∨ n.last ≠ []
+
+theorem storableNet_elim {n : Net} (h : storableNet n = true) : NetOk n := by
+  simp only [storableNet, Bool.and_eq_true, pairwiseB_iff, List.all_eq_true, Bool.or_eq_true,
+    Bool.not_eq_true', List.isEmpty_eq_false_iff, bne_iff_ne, ne_eq] at h
+  obtain ⟨⟨⟨⟨h1, h2⟩, h3⟩, h4⟩, h5⟩ := h
+  exact ⟨h1, h2, h3, h4, h5⟩
+
+theorem callAll_netCmds (E : Env) (nm : Str) (db : NetworksDb) (n : Net) (h : NetOk n) :
+    callAll (netCreator E) (nst nm emptyNet db) (netCmds n) = (nst nm (sortedNet n) db, none) := by
+  unfold netCmds
+  have s1 := callAll_sts E nm db (sortBy (fun a b => strLe a.1 b.1) n.sts) [] emptyNet rfl
+    (fun p hp => h.stsWords p ((mem_sortBy _ _ _).mp hp))
+    (by simpa using sortBy_pairwise_ne _ (fun p : Str × Str => p.1) _ h.stsDistinct)
+  have s2 := callAll_last E nm db (sortBy (fun a b => strLe a.1 b.1) n.last) []
+    { sts := sortBy (fun a b => strLe a.1 b.1) n.sts } rfl
+    (fun p hp => h.lastWords p ((mem_sortBy _ _ _).mp hp))
+    (by simpa using sortBy_pairwise_ne _ (fun p : Str × Nat => p.1) _ h.lastDistinct)
+  simp only [List.nil_append] at s1 s2
+  rw [callAll_append, s1]
+  simp only [s2, sortedNet]
+
+theorem netCmds_ok {n : Net} (h : NetOk n) : ∀ p ∈ netCmds n, KwOk p.1 ∧ clean p.2 = true := by
+  intro p hp
+  simp only [netCmds, List.mem_append, List.mem_map, expCmd] at hp
+  rcases hp with ⟨q, hq, rfl⟩ | ⟨q, hq, rfl⟩
+  · have := h.stsWords q ((mem_sortBy _ _ _).mp hq)
+    exact ⟨kwOk_stsW, clean_words _ _ this.1 this.2⟩
+  · have := h.lastWords q ((mem_sortBy _ _ _).mp hq)
+    exact ⟨kwOk_lastW, clean_words _ _ this (word_natDec _)⟩
+
+theorem netCmds_ne_nil {n : Net} (h : NetOk n) : ∃ p ps, netCmds n = p :: ps := by
+  have : netCmds n ≠ [] := by
+    simp only [netCmds, ne_eq, List.append_eq_nil_iff, List.map_eq_nil_iff, not_and]
+    intro h1 h2
+    have e1 : n.sts = [] := by
+      have := (sortBy_perm (fun a b : Str × Str => strLe a.1 b.1) n.sts).length_eq
+      rw [h1] at this; exact List.length_eq_zero_iff.mp this.symm
+    have e2 : n.last = [] := by
+      have := (sortBy_perm (fun a b : Str × Nat => strLe a.1 b.1) n.last).length_eq
+      rw [h2] at this; exact List.length_eq_zero_iff.mp this.symm
+    rcases h.nonEmpty with h | h
+    · exact h e1
+    · exact h e2
+  cases hc : netCmds n with
+  | nil => exact absurd hc this
+  | cons p ps => exact ⟨p, ps, rfl⟩
+
+def loadedNets (l : NetworksDb) : NetworksDb := l.map (fun p => (p.1, sortedNet p.2))
+
+/-- reader state after the body of record `(nm, n)`: the record is already registered (empty) -/
+def rsMidN (nm : Str) (n : Net) (pre : NetworksDb) : RState NState :=
+  { hasCreator := true, indent := some 2, modified := true, st := nst nm (sortedNet n) (pre ++ [(nm, emptyNet)]) }
+
+structure NetsOk (E : Env) (l : NetworksDb) : Prop where
+  distinct : l.Pairwise (fun a b => C03.toLower a.1 ≠ C03.toLower b.1)
+  names : ∀ p ∈ l, clean p.1 = true ∧ E.lower p.1 = p.1
+  nets : ∀ p ∈ l, NetOk p.2
+
+theorem netBody (E : Env) (nm : Str) (n : Net) (pre : NetworksDb) (m : Bool) (rest : List Str)
+    (hn : NetOk n) (hname : clean nm = true) (hlow : E.lower nm = nm)
+    (hnew : ∀ p ∈ pre, C03.toLower p.1 ≠ C03.toLower nm) :
+    readLines (netCreator E) { hasCreator := true, indent := some 0, modified := m, st := nst nm emptyNet pre }
+        ((netLines n).map indent2 ++ [] :: rest) =
+      readLines (netCreator E) (rsMidN nm n pre) rest := by
+  have hl : (netLines n).map indent2 = linesAt 2 (netCmds n) := by
+    simp [netLines, linesAt, List.map_map, indent2_eq, Function.comp_def]
+  obtain ⟨p, ps, hps⟩ := netCmds_ne_nil hn
+  have hne : nm.isEmpty = false := by
+    obtain ⟨c, cs, hc, _⟩ := clean_elim hname
+    rw [hc]; rfl
+  have hfin : (netCreator E).finish (nst nm emptyNet pre) = (nst nm emptyNet (pre ++ [(nm, emptyNet)]), none) := by
+    show netFinish E (nst nm emptyNet pre) = _
+    simp [netFinish, hne, hlow, ircDictSet_new _ _ _ hnew]
+  have hbody := readLines_new_indent' (netCreator E)
+    { hasCreator := true, indent := some 0, modified := m, st := nst nm emptyNet pre } 2 p ps rfl (by simp) _ hfin
+    (by rw [← hps]; exact netCmds_ok hn) (nst nm (sortedNet n) (pre ++ [(nm, emptyNet)]))
+    (by
+      rw [← hps]
+      show callAll (netCreator E) (netNew (nst nm emptyNet (pre ++ [(nm, emptyNet)]))) (netCmds n) = _
+      exact callAll_netCmds E nm _ n hn)
+  rw [hl, hps, readLines_append, hbody]
+  simp only []
+  rw [readLines_blank]
+  rfl
+
+theorem netFinish_mid (E : Env) (nm : Str) (n : Net) (pre : NetworksDb)
+    (hname : clean nm = true) (hlow : E.lower nm = nm)
+    (hnew : ∀ p ∈ pre, C03.toLower p.1 ≠ C03.toLower nm) :
+    netFinish E (nst nm (sortedNet n) (pre ++ [(nm, emptyNet)])) =
+      (nst nm emptyNet (pre ++ [(nm, sortedNet n)]), none) := by
+  have hne : nm.isEmpty = false := by
+    obtain ⟨c, cs, hc, _⟩ := clean_elim hname
+    rw [hc]; rfl
+  simp [netFinish, hne, hlow, ircDictSet_last _ _ _ _ hnew]
+
+theorem load_rest_nets (E : Env) (bs : NetworksDb) (pre : NetworksDb) (nm : Str) (n : Net)
+    (hst : NetsOk E (pre ++ (nm, n) :: bs)) :
+    (readRestG (netCreator E) (rsMidN nm n (loadedNets pre)) (bs.flatMap netBlock)).1.db =
+        loadedNets (pre ++ (nm, n) :: bs) ∧
+    (readRestG (netCreator E) (rsMidN nm n (loadedNets pre)) (bs.flatMap netBlock)).2 = none := by
+  have hkeys : ∀ (l : NetworksDb) (k : Str), (∀ p ∈ l, C03.toLower p.1 ≠ C03.toLower k) →
+      ∀ p ∈ loadedNets l, C03.toLower p.1 ≠ C03.toLower k := by
+    intro l k h p hp
+    simp only [loadedNets, List.mem_map] at hp
+    obtain ⟨q, hq, rfl⟩ := hp
+    exact h q hq
+  have hcross := (List.pairwise_append.mp hst.distinct).2.2
+  have hnm := hst.names (nm, n) (by simp)
+  have hnew : ∀ p ∈ loadedNets pre, C03.toLower p.1 ≠ C03.toLower nm :=
+    hkeys pre nm (fun p hp => hcross p hp (nm, n) (by simp))
+  induction bs generalizing pre nm n with
+  | nil =>
+    simp only [List.flatMap_nil, readRestG, readLines, rsMidN, if_true]
+    show (netFinish E _).1.db = _ ∧ (netFinish E _).2 = none
+    rw [netFinish_mid E nm n _ hnm.1 hnm.2 hnew]
+    simp [loadedNets]
+  | cons b bs ih =>
+    have hst' : NetsOk E ((pre ++ [(nm, n)]) ++ (b.1, b.2) :: bs) := by
+      have e : (pre ++ [(nm, n)]) ++ (b.1, b.2) :: bs = pre ++ (nm, n) :: b :: bs := by simp
+      rw [e]; exact hst
+    have hb := hst.names b (by simp)
+    have hbn := hst.nets b (by simp)
+    have hcross' := (List.pairwise_append.mp hst'.distinct).2.2
+    have hnewb : ∀ p ∈ loadedNets (pre ++ [(nm, n)]), C03.toLower p.1 ≠ C03.toLower b.1 :=
+      hkeys _ b.1 (fun p hp => hcross' p hp (b.1, b.2) (by simp))
+    have := ih (pre ++ [(nm, n)]) b.1 b.2 hst' hcross' hb hnewb
+    have e2 : loadedNets (pre ++ [(nm, n)]) = loadedNets pre ++ [(nm, sortedNet n)] := by simp [loadedNets]
+    simp only [readRestG] at this ⊢
+    simp only [List.flatMap_cons, netBlock, blockLines, List.cons_append, List.append_assoc, List.nil_append]
+    have hhdr := readLines_next_header (netCreator E) (rsMidN nm n (loadedNets pre)) kwNetwork b.1
+      ((netLines b.2).map indent2 ++ [] :: bs.flatMap netBlock) rfl (by simp [rsMidN]) kwOk_network hb.1
+      (nst nm emptyNet (loadedNets pre ++ [(nm, sortedNet n)])) (nst b.1 emptyNet (loadedNets pre ++ [(nm, sortedNet n)]))
+      (by
+        exact netFinish_mid E nm n _ hnm.1 hnm.2 hnew)
+      (by
+        have hl : asciiLower kwNetwork = kwNetwork := by decide
+        show netCall (netNew _) (asciiLower kwNetwork) b.1 = _
+        rw [hl, netCall_network]
+        rfl)
+    rw [hhdr, netBody E b.1 b.2 _ true _ hbn hb.1 hb.2 (by rw [← e2]; exact hnewb), ← e2]
+    have e3 : pre ++ (nm, n) :: b :: bs = (pre ++ [(nm, n)]) ++ (b.1, b.2) :: bs := by simp
+    rw [e3]
+    exact this
+
+theorem sp_noBreak (kw v : Str) (hk : KwOk kw) (hv : clean v = true) : ∀ c ∈ sp kw v, isBreak c = false := by
+  intro c hc
+  obtain ⟨_, _, _, _, hall⟩ := clean_elim hv
+  simp only [sp, List.mem_append, List.mem_cons] at hc
+  rcases hc with hc | rfl | hc
+  · have := hk.nosp c hc
+    cases hb : isBreak c with
+    | false => rfl
+    | true =>
+      simp only [isBreak, Bool.or_eq_true, decide_eq_true_eq] at hb
+      rcases hb with rfl | rfl <;> revert this <;> decide
+  · decide
+  · have := hall c hc
+    simp [isBreak, this.2.1, this.2.2]
+
+theorem block_noBreak (kw name : Str) (cmds : List (Str × Str)) (hk : KwOk kw) (hn : clean name = true)
+    (hc : ∀ p ∈ cmds, KwOk p.1 ∧ clean p.2 = true) :
+    ∀ l ∈ blockLines (sp kw name) (cmds.map cmdLine), ∀ c ∈ l, isBreak c = false := by
+  intro l hl c hcl
+  simp only [blockLines, List.mem_cons, List.mem_append, List.mem_map, List.not_mem_nil, or_false] at hl
+  rcases hl with (rfl | ⟨q, ⟨r, hr, rfl⟩, rfl⟩) | rfl
+  · exact sp_noBreak _ _ hk hn c hcl
+  · simp only [indent2, List.mem_cons] at hcl
+    rcases hcl with rfl | rfl | hcl
+    · decide
+    · decide
+    · exact sp_noBreak _ _ (hc r hr).1 (hc r hr).2 c hcl
+  · cases hcl
+
+theorem storableNets_elim {E : Env} {db : NetworksDb} (h : storableNets E db = true) :
+    NetsOk E (sortedNets db) := by
+  simp only [storableNets, Bool.and_eq_true, pairwiseB_iff, List.all_eq_true, bne_iff_ne, ne_eq,
+    beq_iff_eq] at h
+  exact ⟨h.1, fun p hp => ⟨(h.2 p hp).1.1, (h.2 p hp).1.2⟩, fun p hp => storableNet_elim (h.2 p hp).2⟩
+
+/-- networks.conf round trip -/
+theorem loadNetworks_dumpNetworks (E : Env) (nname0 : Option Str) (db : NetworksDb)
+    (h : storableNets E db = true) :
+    (loadNetworks E nname0 (dumpNetworks db)).1.db = loadedNets (sortedNets db) ∧
+    (loadNetworks E nname0 (dumpNetworks db)).2 = none := by
+  have hok := storableNets_elim h
+  have hlines : fileLines (dumpNetworks db) = (sortedNets db).flatMap netBlock := by
+    unfold dumpNetworks
+    apply fileLines_unlines
+    intro l hl
+    simp only [List.mem_flatMap] at hl
+    obtain ⟨p, hp, hl⟩ := hl
+    exact block_noBreak kwNetwork p.1 (netCmds p.2) kwOk_network (hok.names p hp).1
+      (netCmds_ok (hok.nets p hp)) l hl
+  unfold loadNetworks
+  rw [readText_eq, hlines]
+  cases hs : sortedNets db with
+  | nil => simp [readRestG, readLines, loadedNets]
+  | cons b bs =>
+    rw [hs] at hok
+    have hb := hok.names b (by simp)
+    have hbn := hok.nets b (by simp)
+    have := load_rest_nets E bs [] b.1 b.2 (by simpa using hok)
+    simp only [readRestG] at this ⊢
+    simp only [List.flatMap_cons, netBlock, blockLines, List.cons_append, List.append_assoc, List.nil_append]
+    have hhdr := readLines_first_header (netCreator E) (⟨nname0, {}, []⟩ : NState) kwNetwork b.1
+      ((netLines b.2).map indent2 ++ [] :: bs.flatMap netBlock) kwOk_network hb.1 (nst b.1 emptyNet [])
+      (by
+        have hl : asciiLower kwNetwork = kwNetwork := by decide
+        show netCall (netNew _) (asciiLower kwNetwork) b.1 = _
+        rw [hl, netCall_network]
+        rfl)
+    rw [hhdr, netBody E b.1 b.2 [] true _ hbn hb.1 hb.2 (by simp)]
+    simpa [loadedNets] using this
+
+/-! ## 6. channels.conf -/
+
+/-! ### the capability set a reload builds -/
+
+theorem capAdd_val (s : List Str) (c i : Str) (hl : C03.toLower c = c) (hi : C03.invertCapability c = .ok i) :
+    capAdd s c = (C03.CapSet.insert (C03.CapSet.erase s i) c, none) := by
+  simp [capAdd, liftR, C03.CapSet.add, hl, hi]
+
+theorem mem_capInsert (s : List Str) (c x : Str) : x ∈ C03.CapSet.insert s c ↔ x = c ∨ x ∈ s := by
+  unfold C03.CapSet.insert
+  by_cases h : c ∈ s
+  · simp only [h, if_true]
+    constructor
+    · exact Or.inr
+    · rintro (rfl | hx)
+      · exact h
+      · exact hx
+  · simp only [h, if_false, List.mem_append, List.mem_singleton]
+    constructor
+    · rintro (hx | hx)
+      · exact Or.inr hx
+      · exact Or.inl hx
+    · rintro (hx | hx)
+      · exact Or.inr hx
+      · exact Or.inl hx
+
+theorem mem_capErase (s : List Str) (i x : Str) : x ∈ C03.CapSet.erase s i ↔ x ∈ s ∧ x ≠ i := by
+  simp [C03.CapSet.erase]
+
+theorem nodup_capAddVal (s : List Str) (c i : Str) (h : s.Nodup) :
+    (C03.CapSet.insert (C03.CapSet.erase s i) c).Nodup := by
+  have h1 : (C03.CapSet.erase s i).Nodup := by
+    unfold C03.CapSet.erase
+    exact h.sublist List.filter_sublist
+  unfold C03.CapSet.insert
+  by_cases hc : c ∈ C03.CapSet.erase s i
+  · simp [hc, h1]
+  · simp only [hc, if_false]
+    rw [List.nodup_append]
+    refine ⟨h1, by simp, ?_⟩
+    intro a ha b hb
+    simp only [List.mem_singleton] at hb
+    subst hb
+    intro e; subst e; exact hc ha
+
+/-- hypothesis on a list of written capabilities: lower-cased, invertible, inverse not written -/
+def CapsInv (cs : List Str) : Prop :=
+  ∀ c ∈ cs, C03.toLower c = c ∧ ∃ i, C03.invertCapability c = .ok i ∧ i ∉ cs
+
+theorem CapsInv_tail {c : Str} {cs : List Str} (h : CapsInv (c :: cs)) : CapsInv cs := by
+  intro x hx
+  obtain ⟨hl, i, hi, hni⟩ := h x (by simp [hx])
+  exact ⟨hl, i, hi, fun hm => hni (by simp [hm])⟩
+
+theorem foldAdd_mem (cs s : List Str) (h : CapsInv cs) (x : Str) :
+    x ∈ cs.foldl (fun s c => (capAdd s c).1) s ↔
+      (x ∈ s ∧ ∀ c ∈ cs, C03.invertCapability c ≠ .ok x) ∨ x ∈ cs := by
+  induction cs generalizing s with
+  | nil => simp
+  | cons c cs ih =>
+    obtain ⟨hl, i, hi, hni⟩ := h c (by simp)
+    simp only [List.foldl_cons]
+    rw [capAdd_val s c i hl hi]
+    rw [ih _ (CapsInv_tail h), mem_capInsert, mem_capErase]
+    constructor
+    · rintro (⟨(rfl | ⟨hxs, hxi⟩), hall⟩ | hx)
+      · exact Or.inr (by simp)
+      · left
+        refine ⟨hxs, ?_⟩
+        intro c' hc'
+        rcases List.mem_cons.mp hc' with rfl | hc'
+        · rw [hi]; intro e; injection e with e; exact hxi e.symm
+        · exact hall c' hc'
+      · exact Or.inr (by simp [hx])
+    · rintro (⟨hxs, hall⟩ | hx)
+      · left
+        refine ⟨Or.inr ⟨hxs, ?_⟩, fun c' hc' => hall c' (by simp [hc'])⟩
+        intro e; subst e; exact hall c (by simp) hi
+      · rcases List.mem_cons.mp hx with rfl | hx
+        · left
+          refine ⟨Or.inl rfl, ?_⟩
+          intro c' hc'
+          obtain ⟨_, i', hi', hni'⟩ := h c' (by simp [hc'])
+          rw [hi']; intro e; injection e with e
+          exact hni' (by simp [e])
+        · exact Or.inr hx
+
+theorem foldAdd_nodup (cs s : List Str) (h : CapsInv cs) (hs : s.Nodup) :
+    (cs.foldl (fun s c => (capAdd s c).1) s).Nodup := by
+  induction cs generalizing s with
+  | nil => simpa
+  | cons c cs ih =>
+    obtain ⟨hl, i, hi, _⟩ := h c (by simp)
+    simp only [List.foldl_cons]
+    rw [capAdd_val s c i hl hi]
+    exact ih _ (CapsInv_tail h) (nodup_capAddVal s c i hs)
+
+theorem foldAdd_noerr (E : Env) (cs : List Str) (h : CapsInv cs) (st : CState) (hn : st.cname.isSome = true) :
+    callAll (chanCreator E) st (cs.map (fun c => (kwCapability, c))) =
+      ({ st with c := { st.c with caps := cs.foldl (fun s c => (capAdd s c).1) st.c.caps } }, none) := by
+  induction cs generalizing st with
+  | nil => simp [callAll]
+  | cons c cs ih =>
+    obtain ⟨hl, i, hi, _⟩ := h c (by simp)
+    have hlow : asciiLower kwCapability = kwCapability := by decide
+    have hcn : st.cname.isNone = false := by
+      cases hc : st.cname with
+      | none => simp [hc] at hn
+      | some _ => rfl
+    rw [List.map_cons, callAll_cons_ok (chanCreator E) _
+      { st with c := { st.c with caps := (capAdd st.c.caps c).1 } } _ _ (by
+        show chanCall st (asciiLower kwCapability) c = _
+        rw [hlow]
+        simp [chanCall, withCname, hcn, kwCapability, kwChannel, kwLobotomized, kwDefaultAllow,
+          capAdd_val _ c i hl hi])]
+    have := ih (CapsInv_tail h) { st with c := { st.c with caps := (capAdd st.c.caps c).1 } } hn
+    rw [this]
+    simp
+
+theorem capsOk_CapsInv {caps : List Str} (h : capsOk caps = true) : CapsInv caps := by
+  intro c hc
+  obtain ⟨_, hl, i, hi, hni⟩ := (capsOk_elim h).2 c hc
+  exact ⟨hl, i, hi, hni⟩
+
+theorem defaultChanCaps_nodup : defaultChanCaps.Nodup := by decide
+
+/-- **the reloaded capability list is the written set**: no duplicates, same members -/
+theorem loadedCaps_equiv (caps : List Str) (h : chanCapsOk caps = true) :
+    (loadedCaps caps).Nodup ∧ ∀ x, x ∈ loadedCaps caps ↔ x ∈ caps := by
+  simp only [chanCapsOk, Bool.and_eq_true, List.all_eq_true, Bool.or_eq_true, List.contains_eq_mem,
+    decide_eq_true_eq, List.any_eq_true] at h
+  obtain ⟨hc, hd⟩ := h
+  have hinv := capsOk_CapsInv hc
+  refine ⟨foldAdd_nodup caps _ hinv defaultChanCaps_nodup, ?_⟩
+  intro x
+  unfold loadedCaps
+  rw [foldAdd_mem caps _ hinv x]
+  constructor
+  · rintro (⟨hxd, hall⟩ | hx)
+    · rcases hd x hxd with hx | ⟨c, hc', hm⟩
+      · exact hx
+      · exfalso
+        cases hi : C03.invertCapability c with
+        | error e => simp [hi] at hm
+        | ok i =>
+          simp only [hi, beq_iff_eq] at hm
+          subst hm
+          exact hall c hc' hi
+    · exact hx
+  · exact Or.inr
+
+/-! ### a channel record through the reader -/
+
+theorem kwOk_channel : KwOk kwChannel := ⟨by decide, by decide⟩
+theorem kwOk_lobotomized : KwOk kwLobotomized := ⟨by decide, by decide⟩
+theorem kwOk_defaultAllowW : KwOk kwDefaultAllowW := ⟨by decide, by decide⟩
+theorem kwOk_ban : KwOk kwBan := ⟨by decide, by decide⟩
+
+/-- creator state while the body of channel `nm` is read -/
+abbrev cst (nm : Str) (c : Chan) (db : ChannelsDb) : CState := ⟨some nm, c, true, db⟩
+
+theorem chanCall_lobotomized (nm : Str) (c : Chan) (db : ChannelsDb) (b : Bool) :
+    chanCall (cst nm c db) kwLobotomized (boolStr b) = (cst nm { c with lobotomized := b } db, none) := by
+  simp [chanCall, withCname, evalBool_boolStr, kwChannel, kwLobotomized]
+
+theorem chanCall_defaultAllow (nm : Str) (c : Chan) (db : ChannelsDb) (b : Bool) :
+    chanCall (cst nm c db) kwDefaultAllow (boolStr b) = (cst nm { c with defaultAllow := b } db, none) := by
+  simp [chanCall, withCname, evalBool_boolStr, kwChannel, kwLobotomized, kwDefaultAllow]
+
+theorem expField_written (m : Str) (e : Nat) (hm : word m = true) (he : e < 2 ^ 53) :
+    expField (sp m (natDec e)) = .ok (m, e) := by
+  have : splitWs (sp m (natDec e)) = [m, natDec e] := splitWs_two m _ hm (word_natDec e)
+  simp [expField, this, parseFloatNat_natDec e he]
+
+theorem chanCall_ban (nm : Str) (c : Chan) (db : ChannelsDb) (m : Str) (e : Nat)
+    (hm : word m = true) (he : e < 2 ^ 53) :
+    chanCall (cst nm c db) kwBan (sp m (natDec e)) = (cst nm { c with bans := dictSet m e c.bans } db, none) := by
+  simp [chanCall, withCname, expField_written m e hm he, kwChannel, kwLobotomized, kwDefaultAllow,
+    kwCapability, kwBan]
+
+theorem chanCall_ignore (nm : Str) (c : Chan) (db : ChannelsDb) (m : Str) (e : Nat)
+    (hm : word m = true) (he : e < 2 ^ 53) :
+    chanCall (cst nm c db) kwIgnore (sp m (natDec e)) =
+      (cst nm { c with ignores := dictSet m e c.ignores } db, none) := by
+  simp [chanCall, withCname, expField_written m e hm he, kwChannel, kwLobotomized, kwDefaultAllow,
+    kwCapability, kwBan, kwIgnore]
+
+theorem callAll_bans (E : Env) (nm : Str) (db : ChannelsDb) (es pre : List (Str × Nat)) (c : Chan)
+    (hr : c.bans = pre) (hok : ∀ p ∈ es, word p.1 = true ∧ p.2 < 2 ^ 53)
+    (hpw : (pre ++ es).Pairwise (fun a b => a.1 ≠ b.1)) :
+    callAll (chanCreator E) (cst nm c db) (es.map (expCmd kwBan)) =
+      (cst nm { c with bans := pre ++ es } db, none) := by
+  induction es generalizing pre c with
+  | nil => subst hr; simp [callAll]
+  | cons p ps ih =>
+    have hnew : ∀ q ∈ pre, q.1 ≠ p.1 := fun q hq => (List.pairwise_append.mp hpw).2.2 q hq p (by simp)
+    have hlow : asciiLower kwBan = kwBan := by decide
+    rw [List.map_cons, callAll_cons_ok (chanCreator E) _ (cst nm { c with bans := pre ++ [p] } db) _ _ (by
+      show chanCall (cst nm c db) (asciiLower kwBan) (sp p.1 (natDec p.2)) = _
+      rw [hlow, chanCall_ban _ _ _ _ _ (hok p (by simp)).1 (hok p (by simp)).2]
+      simp only [hr, dictSet_new _ _ _ hnew])]
+    have := ih (pre ++ [p]) { c with bans := pre ++ [p] } rfl (fun q hq => hok q (by simp [hq])) (by simpa using hpw)
+    rw [this]
+    simp
+
+theorem callAll_chanIgnores (E : Env) (nm : Str) (db : ChannelsDb) (es pre : List (Str × Nat)) (c : Chan)
+    (hr : c.ignores = pre) (hok : ∀ p ∈ es, word p.1 = true ∧ p.2 < 2 ^ 53)
+    (hpw : (pre ++ es).Pairwise (fun a b => a.1 ≠ b.1)) :
+    callAll (chanCreator E) (cst nm c db) (es.map (expCmd kwIgnore)) =
+      (cst nm { c with ignores := pre ++ es } db, none) := by
+  induction es generalizing pre c with
+  | nil => subst hr; simp [callAll]
+  | cons p ps ih =>
+    have hnew : ∀ q ∈ pre, q.1 ≠ p.1 := fun q hq => (List.pairwise_append.mp hpw).2.2 q hq p (by simp)
+    have hlow : asciiLower kwIgnore = kwIgnore := by decide
+    rw [List.map_cons, callAll_cons_ok (chanCreator E) _ (cst nm { c with ignores := pre ++ [p] } db) _ _ (by
+      show chanCall (cst nm c db) (asciiLower kwIgnore) (sp p.1 (natDec p.2)) = _
+      rw [hlow, chanCall_ignore _ _ _ _ _ (hok p (by simp)).1 (hok p (by simp)).2]
+      simp only [hr, dictSet_new _ _ _ hnew])]
+    have := ih (pre ++ [p]) { c with ignores := pre ++ [p] } rfl (fun q hq => hok q (by simp [hq])) (by simpa using hpw)
+    rw [this]
+    simp
+
+structure ExpsOk (l : List (Str × Nat)) : Prop where
+  distinct : l.Pairwise (fun a b => a.1 ≠ b.1)
+  ok : ∀ p ∈ l, word p.1 = true ∧ p.2 < 2 ^ 53
+
+theorem expsOk_elim {l : List (Str × Nat)} (h : expsOk l = true) : ExpsOk l := by
+  simp only [expsOk, Bool.and_eq_true, pairwiseB_iff, List.all_eq_true, decide_eq_true_eq, bne_iff_ne, ne_eq] at h
+  exact ⟨h.1, h.2⟩
+
+theorem ExpsOk_sorted {l : List (Str × Nat)} (h : ExpsOk l) : ExpsOk (sortByExp l) :=
+  ⟨sortBy_pairwise_ne _ (fun p : Str × Nat => p.1) _ h.distinct, fun p hp => h.ok p ((mem_sortBy _ _ _).mp hp)⟩
+
+structure ChanOk (c : Chan) : Prop where
+  caps : chanCapsOk c.caps = true
+  bans : ExpsOk c.bans
+  ignores : ExpsOk c.ignores
+
+theorem storableChan_elim {c : Chan} (h : storableChan c = true) : ChanOk c := by
+  simp only [storableChan, Bool.and_eq_true] at h
+  exact ⟨h.1.1, expsOk_elim h.1.2, expsOk_elim h.2⟩
+
+theorem chanCapsOk_capsOk {caps : List Str} (h : chanCapsOk caps = true) : capsOk caps = true := by
+  simp only [chanCapsOk, Bool.and_eq_true] at h
+  exact h.1
+
+theorem callAll_chanCmds (E : Env) (nm : Str) (db : ChannelsDb) (c : Chan) (h : ChanOk c) :
+    callAll (chanCreator E) (cst nm freshChan db) (chanCmds c) = (cst nm (loadedChan c) db, none) := by
+  unfold chanCmds
+  have l1 : asciiLower kwLobotomized = kwLobotomized := by decide
+  have l2 : asciiLower kwDefaultAllowW = kwDefaultAllow := by decide
+  have s1 : callAll (chanCreator E) (cst nm freshChan db)
+      [(kwLobotomized, boolStr c.lobotomized), (kwDefaultAllowW, boolStr c.defaultAllow)] =
+      (cst nm { freshChan with lobotomized := c.lobotomized, defaultAllow := c.defaultAllow } db, none) := by
+    rw [callAll_cons_ok (chanCreator E) _ (cst nm { freshChan with lobotomized := c.lobotomized } db) _ _ (by
+        dsimp only [chanCreator]
+        rw [l1, chanCall_lobotomized]),
+      callAll_cons_ok (chanCreator E) _
+        (cst nm { freshChan with lobotomized := c.lobotomized, defaultAllow := c.defaultAllow } db) _ _ (by
+        dsimp only [chanCreator]
+        rw [l2, chanCall_defaultAllow])]
+    rfl
+  have s2 := foldAdd_noerr E c.caps (capsOk_CapsInv (chanCapsOk_capsOk h.caps))
+    (cst nm { freshChan with lobotomized := c.lobotomized, defaultAllow := c.defaultAllow } db) rfl
+  have hb := ExpsOk_sorted h.bans
+  have hi := ExpsOk_sorted h.ignores
+  have s3 := callAll_bans E nm db (sortByExp c.bans) []
+    { lobotomized := c.lobotomized, defaultAllow := c.defaultAllow, caps := loadedCaps c.caps } rfl hb.ok
+    (by simpa using hb.distinct)
+  have s4 := callAll_chanIgnores E nm db (sortByExp c.ignores) []
+    { lobotomized := c.lobotomized, defaultAllow := c.defaultAllow, caps := loadedCaps c.caps,
+      bans := sortByExp c.bans } rfl hi.ok (by simpa using hi.distinct)
+  simp only [List.nil_append] at s3 s4
+  rw [callAll_append, callAll_append, callAll_append, s1]
+  simp only [s2]
+  have e : ({ cst nm { freshChan with lobotomized := c.lobotomized, defaultAllow := c.defaultAllow } db with
+      c := { ({ freshChan with lobotomized := c.lobotomized, defaultAllow := c.defaultAllow } : Chan) with
+        caps := c.caps.foldl (fun s c => (capAdd s c).1)
+          ({ freshChan with lobotomized := c.lobotomized, defaultAllow := c.defaultAllow } : Chan).caps } } : CState) =
+      cst nm { lobotomized := c.lobotomized, defaultAllow := c.defaultAllow, caps := loadedCaps c.caps } db := rfl
+  rw [e]
+  simp only [sortByExp] at s3 s4
+  simp only [s3, s4, loadedChan, sortByExp]
+
+theorem chanCmds_ok {c : Chan} (h : ChanOk c) : ∀ p ∈ chanCmds c, KwOk p.1 ∧ clean p.2 = true := by
+  intro p hp
+  simp only [chanCmds, List.mem_append, List.mem_cons, List.mem_map, List.not_mem_nil, or_false, expCmd] at hp
+  rcases hp with (((rfl | rfl) | ⟨x, hx, rfl⟩) | ⟨q, hq, rfl⟩) | ⟨q, hq, rfl⟩
+  · exact ⟨kwOk_lobotomized, clean_boolStr _⟩
+  · exact ⟨kwOk_defaultAllowW, clean_boolStr _⟩
+  · exact ⟨kwOk_capability, ((capsOk_elim (chanCapsOk_capsOk h.caps)).2 x hx).1⟩
+  · have := h.bans.ok q ((mem_sortBy _ _ _).mp hq)
+    exact ⟨kwOk_ban, clean_words _ _ this.1 (word_natDec _)⟩
+  · have := h.ignores.ok q ((mem_sortBy _ _ _).mp hq)
+    exact ⟨kwOk_ignore, clean_words _ _ this.1 (word_natDec _)⟩
+
+def loadedChans (l : ChannelsDb) : ChannelsDb := l.map (fun p => (p.1, loadedChan p.2))
+
+/-- reader state after the body of channel `(nm, c)` -/
+def rsMidC (nm : Str) (c : Chan) (pre : ChannelsDb) : RState CState :=
+  { hasCreator := true, indent := some 2, modified := true, st := cst nm (loadedChan c) pre }
+
+structure ChansOk (E : Env) (l : ChannelsDb) : Prop where
+  distinct : l.Pairwise (fun a b => C03.toLower a.1 ≠ C03.toLower b.1)
+  names : ∀ p ∈ l, clean p.1 = true ∧ E.lower p.1 = p.1
+  chans : ∀ p ∈ l, ChanOk p.2
+
+theorem chanBody (E : Env) (nm : Str) (c : Chan) (pre : ChannelsDb) (m : Bool) (c0 : Chan) (rest : List Str)
+    (hc : ChanOk c) (hname : clean nm = true) :
+    readLines (chanCreator E)
+        { hasCreator := true, indent := some 0, modified := m, st := ⟨some nm, c0, false, pre⟩ }
+        ((chanLines c).map indent2 ++ [] :: rest) =
+      readLines (chanCreator E) (rsMidC nm c pre) rest := by
+  have hl : (chanLines c).map indent2 = linesAt 2 (chanCmds c) := by
+    simp [chanLines, linesAt, List.map_map, indent2_eq, Function.comp_def]
+  obtain ⟨p, ps, hps⟩ : ∃ p ps, chanCmds c = p :: ps := ⟨(kwLobotomized, boolStr c.lobotomized), _, rfl⟩
+  have hne : nm.isEmpty = false := by
+    obtain ⟨x, xs, hx, _⟩ := clean_elim hname
+    rw [hx]; rfl
+  have hfin : (chanCreator E).finish (⟨some nm, c0, false, pre⟩ : CState) = (⟨some nm, c0, false, pre⟩, none) := by
+    dsimp only [chanCreator]
+    simp [chanFinish]
+  have hbody := readLines_new_indent' (chanCreator E)
+    { hasCreator := true, indent := some 0, modified := m, st := ⟨some nm, c0, false, pre⟩ } 2 p ps rfl (by simp) _ hfin
+    (by rw [← hps]; exact chanCmds_ok hc) (cst nm (loadedChan c) pre)
+    (by
+      rw [← hps]
+      show callAll (chanCreator E) (chanNew ⟨some nm, c0, false, pre⟩) (chanCmds c) = _
+      have : chanNew ⟨some nm, c0, false, pre⟩ = cst nm freshChan pre := by simp [chanNew, hne]
+      rw [this]
+      exact callAll_chanCmds E nm pre c hc)
+  rw [hl, hps, readLines_append, hbody]
+  simp only []
+  rw [readLines_blank]
+  rfl
+
+theorem chanFinish_mid (E : Env) (nm : Str) (c : Chan) (pre : ChannelsDb) (hlow : E.lower nm = nm)
+    (hnew : ∀ p ∈ pre, C03.toLower p.1 ≠ C03.toLower nm) :
+    chanFinish E (cst nm c pre) = (⟨none, c, true, pre ++ [(nm, c)]⟩, none) := by
+  simp [chanFinish, hlow, ircDictSet_new _ _ _ hnew]
+
+theorem load_rest_chans (E : Env) (bs : ChannelsDb) (pre : ChannelsDb) (nm : Str) (c : Chan)
+    (hst : ChansOk E (pre ++ (nm, c) :: bs)) :
+    (readRestG (chanCreator E) (rsMidC nm c (loadedChans pre)) (bs.flatMap chanBlock)).1.db =
+        loadedChans (pre ++ (nm, c) :: bs) ∧
+    (readRestG (chanCreator E) (rsMidC nm c (loadedChans pre)) (bs.flatMap chanBlock)).1.cname = none ∧
+    (readRestG (chanCreator E) (rsMidC nm c (loadedChans pre)) (bs.flatMap chanBlock)).2 = none := by
+  have hkeys : ∀ (l : ChannelsDb) (k : Str), (∀ p ∈ l, C03.toLower p.1 ≠ C03.toLower k) →
+      ∀ p ∈ loadedChans l, C03.toLower p.1 ≠ C03.toLower k := by
+    intro l k h p hp
+    simp only [loadedChans, List.mem_map] at hp
+    obtain ⟨q, hq, rfl⟩ := hp
+    exact h q hq
+  have hcross := (List.pairwise_append.mp hst.distinct).2.2
+  have hnm := hst.names (nm, c) (by simp)
+  have hnew : ∀ p ∈ loadedChans pre, C03.toLower p.1 ≠ C03.toLower nm :=
+    hkeys pre nm (fun p hp => hcross p hp (nm, c) (by simp))
+  induction bs generalizing pre nm c with
+  | nil =>
+    simp only [List.flatMap_nil, readRestG, readLines, rsMidC, if_true]
+    show (chanFinish E _).1.db = _ ∧ (chanFinish E _).1.cname = none ∧ (chanFinish E _).2 = none
+    rw [chanFinish_mid E nm _ _ hnm.2 hnew]
+    simp [loadedChans]
+  | cons b bs ih =>
+    have hst' : ChansOk E ((pre ++ [(nm, c)]) ++ (b.1, b.2) :: bs) := by
+      have e : (pre ++ [(nm, c)]) ++ (b.1, b.2) :: bs = pre ++ (nm, c) :: b :: bs := by simp
+      rw [e]; exact hst
+    have hb := hst.names b (by simp)
+    have hbc := hst.chans b (by simp)
+    have hcross' := (List.pairwise_append.mp hst'.distinct).2.2
+    have hnewb : ∀ p ∈ loadedChans (pre ++ [(nm, c)]), C03.toLower p.1 ≠ C03.toLower b.1 :=
+      hkeys _ b.1 (fun p hp => hcross' p hp (b.1, b.2) (by simp))
+    have := ih (pre ++ [(nm, c)]) b.1 b.2 hst' hcross' hb hnewb
+    have e2 : loadedChans (pre ++ [(nm, c)]) = loadedChans pre ++ [(nm, loadedChan c)] := by simp [loadedChans]
+    simp only [readRestG] at this ⊢
+    simp only [List.flatMap_cons, chanBlock, blockLines, List.cons_append, List.append_assoc, List.nil_append]
+    have hhdr := readLines_next_header (chanCreator E) (rsMidC nm c (loadedChans pre)) kwChannel b.1
+      ((chanLines b.2).map indent2 ++ [] :: bs.flatMap chanBlock) rfl (by simp [rsMidC]) kwOk_channel hb.1
+      (⟨none, loadedChan c, true, loadedChans pre ++ [(nm, loadedChan c)]⟩ : CState)
+      (⟨some b.1, freshChan, false, loadedChans pre ++ [(nm, loadedChan c)]⟩ : CState)
+      (chanFinish_mid E nm _ _ hnm.2 hnew)
+      (by
+        have hl : asciiLower kwChannel = kwChannel := by decide
+        dsimp only [chanCreator]
+        rw [hl]
+        simp [chanCall, chanNew])
+    rw [hhdr, chanBody E b.1 b.2 _ true _ _ hbc hb.1, ← e2]
+    have e3 : pre ++ (nm, c) :: b :: bs = (pre ++ [(nm, c)]) ++ (b.1, b.2) :: bs := by simp
+    rw [e3]
+    exact this
+
+theorem storableChans_elim {E : Env} {db : ChannelsDb} (h : storableChans E db = true) :
+    ChansOk E (sortedChans db) := by
+  simp only [storableChans, Bool.and_eq_true, pairwiseB_iff, List.all_eq_true, bne_iff_ne, ne_eq,
+    beq_iff_eq] at h
+  exact ⟨h.1, fun p hp => ⟨(h.2 p hp).1.1, (h.2 p hp).1.2⟩, fun p hp => storableChan_elim (h.2 p hp).2⟩
+
+/-- channels.conf round trip -/
+theorem loadChannels_dumpChannels (E : Env) (db : ChannelsDb) (h : storableChans E db = true) :
+    (loadChannels E none (dumpChannels db)).1.db = loadedChans (sortedChans db) ∧
+    (loadChannels E none (dumpChannels db)).1.cname = none ∧
+    (loadChannels E none (dumpChannels db)).2 = none := by
+  have hok := storableChans_elim h
+  have hlines : fileLines (dumpChannels db) = (sortedChans db).flatMap chanBlock := by
+    unfold dumpChannels
+    apply fileLines_unlines
+    intro l hl
+    simp only [List.mem_flatMap] at hl
+    obtain ⟨p, hp, hl⟩ := hl
+    exact block_noBreak kwChannel p.1 (chanCmds p.2) kwOk_channel (hok.names p hp).1
+      (chanCmds_ok (hok.chans p hp)) l hl
+  unfold loadChannels
+  rw [readText_eq, hlines]
+  cases hs : sortedChans db with
+  | nil => simp [readRestG, readLines, loadedChans]
+  | cons b bs =>
+    rw [hs] at hok
+    have hb := hok.names b (by simp)
+    have hbc := hok.chans b (by simp)
+    have := load_rest_chans E bs [] b.1 b.2 (by simpa using hok)
+    simp only [readRestG] at this ⊢
+    simp only [List.flatMap_cons, chanBlock, blockLines, List.cons_append, List.append_assoc, List.nil_append]
+    have hhdr := readLines_first_header (chanCreator E) ({ cname := none } : CState) kwChannel b.1
+      ((chanLines b.2).map indent2 ++ [] :: bs.flatMap chanBlock) kwOk_channel hb.1
+      (⟨some b.1, freshChan, false, []⟩ : CState)
+      (by
+        have hl : asciiLower kwChannel = kwChannel := by decide
+        dsimp only [chanCreator]
+        rw [hl]
+        simp [chanCall, chanNew])
+    rw [hhdr, chanBody E b.1 b.2 [] true _ _ hbc hb.1]
+    simpa [loadedChans] using this
 
 end C16
